@@ -73,21 +73,22 @@ def prune(n: Node, strict: bool = False) -> list:
                 n.parent.remove_child(n)
             Node.delete_node_instance(n.id)
             return pruned
-        except ChildNotAllowedError as ex:
+        except MetapypeRuleError as ex:
+            # Whichever rule error was met first, children the rule does not allow must go
+            logger.debug(ex)
             r = rule.get_rule(n.name)
             children = n.children.copy()
             for child in children:
                 if not r.is_allowed_child(child.name):
                     logger.debug(f"Pruning: {child.name}")
-                    pruned.append((child, str(ex)))
+                    msg = f"Child '{child.name}' not allowed in parent '{n.name}'"
+                    pruned.append((child, msg))
                     n.remove_child(child)
                     Node.delete_node_instance(child.id)
-        except MetapypeRuleError as ex:
-            logger.debug(ex)
         children = n.children.copy()
         for child in children:
             pruned += prune(child, strict)
-            if strict and child not in pruned:
+            if strict and child in n.children:
                 try:
                     node(child)
                 except MetapypeRuleError as ex:
